@@ -228,7 +228,11 @@ def _record_random(item):
     if metric == "r2" and rng.random() < 0.3:       # heights far from the origin (R2 is translation invariant)
         P[:, 1] = np.round(P[:, 1] * 8) / 8 + float(2 ** 26)
         rel = 1e-6
-    if rel == 1e-9 and rng.random() < 0.25:      # (never together with the height offset: two offsets compound the rounding)
+    if rel == 1e-9 and rng.random() < 0.2:
+        # heights in tiny units (2^-30, exact): R2 and the relative metrics are scale invariant in y, RMSE-like ones scale -
+        # the definition is evaluated on the scaled values either way; an ABSOLUTE epsilon added to a sum of squares is not
+        P[:, 1] = P[:, 1] * 2.0 ** -30
+    elif rel == 1e-9 and rng.random() < 0.25:      # (never together with the height offset: two offsets compound the rounding)
         # abscissae far from the origin relative to their spacing (exactly representable): the definition interpolates
         # between breakpoints, so it is translation invariant in x; a relative comparison of segment end abscissae is not
         xs = np.round(P[:, 0])
